@@ -71,9 +71,10 @@ CONSTANTS MaxLen,     \* strings up to this length are states that are expanded
           Part,       \* only strings whose first code point (0 for "") is in Part are expanded
           UriAlpha,   \* code points of the URI-escaping family: '%', hex digits, non-hex characters
           UriLen,     \* ... strings up to this length ('%20', '%4G', 'a%2F'); only the 3 escaping functions apply
+          CaseAlpha,  \* case-mapping family: strings <= MaxLen over the SpecialCasing characters (only upper-/lower-case act)
           AlphaC,     \* collation family: strings <= MaxLen over AlphaC are the first arguments ('a', 'A', ...)
           DocLen,     \* node-set argument family: context element with up to DocLen children named b, c, d
-          Acts        \* action families: subset of {"fn1","fn2","translate","substring","concatx","rejoin","cps","uri","doc","coll"}
+          Acts        \* action families: subset of {"fn1","fn2","translate","substring","concatx","rejoin","cps","uri","doc","coll","case","edge","ctx"}
 
 VARIABLE cur
 vars == <<cur>>
@@ -142,6 +143,43 @@ LowerC(c) == IF c \in 65..90 THEN c + 32 ELSE c
 UpperCase(s) == [i \in 1..Len(s) |-> UpperC(s[i])]
 LowerCase(s) == [i \in 1..Len(s) |-> LowerC(s[i])]
 
+(* fn:upper-case / fn:lower-case (F&O 5.4.7/5.4.8): the Unicode default case conversion, i.e.
+   UnicodeData simple mappings plus the UNCONDITIONAL and the language-insensitive conditional
+   (Final_Sigma) mappings of SpecialCasing.txt.  The table is written out for the characters
+   of the case family; every other character of the model maps as ASCII or to itself.  The
+   binding cross-checks every edge with the running interpreter's str.upper()/str.lower(). *)
+UpperOf(c) ==
+  CASE c = 223 -> <<83, 83>>                     \* U+00DF sharp s -> SS
+    [] c = 64256 -> <<70, 70>>                   \* U+FB00 ligature ff -> FF
+    [] c = 329 -> <<700, 78>>                    \* U+0149 -> U+02BC N
+    [] c = 8064 -> <<7944, 921>>                 \* U+1F80 alpha psili ypogegrammeni -> U+1F08 U+0399
+    [] c = 453 -> <<452>> [] c = 454 -> <<452>>  \* U+01C5 / U+01C6 -> U+01C4
+    [] c = 305 -> <<73>>                         \* U+0131 dotless i -> I
+    [] c = 963 -> <<931>> [] c = 962 -> <<931>>  \* sigma, final sigma -> U+03A3
+    [] c = 945 -> <<913>>                        \* alpha -> U+0391
+    [] c = 4304 -> <<7312>>                      \* Georgian an U+10D0 -> U+1C90
+    [] c = 43888 -> <<5024>>                     \* Cherokee small a U+AB70 -> U+13A0
+    [] OTHER -> <<UpperC(c)>>
+LowerOf(c) ==
+  CASE c = 304 -> <<105, 775>>                   \* U+0130 I with dot above -> i U+0307
+    [] c = 453 -> <<454>> [] c = 452 -> <<454>>  \* U+01C5 / U+01C4 -> U+01C6
+    [] c = 931 -> <<963>>                        \* capital sigma (not final) -> U+03C3
+    [] c = 913 -> <<945>>
+    [] c = 7312 -> <<4304>>                      \* Georgian U+1C90 -> U+10D0
+    [] c = 5024 -> <<43888>>                     \* Cherokee U+13A0 -> U+AB70
+    [] c = 7944 -> <<7936>> [] c = 921 -> <<953>>
+    [] OTHER -> <<LowerC(c)>>
+CasedChars == (65..90) \cup (97..122) \cup {223, 304, 305, 329, 452, 453, 454, 913, 945, 931, 962, 963, 8064, 64256, 4304, 7312, 5024, 43888, 7944, 921, 953}
+IsCased(c) == c \in CasedChars
+IsCaseIgnorable(c) == c \in {769, 775, 46, 39, 700}       \* Mn marks, '.', apostrophe, U+02BC
+(* SpecialCasing Final_Sigma: preceded by a cased letter and any case-ignorable characters, and NOT
+   followed by any case-ignorable characters and a cased letter *)
+FinalSigma(s, i) ==
+  /\ \E j \in 1..(i - 1) : IsCased(s[j]) /\ \A k \in (j + 1)..(i - 1) : IsCaseIgnorable(s[k])
+  /\ ~\E j \in (i + 1)..Len(s) : IsCased(s[j]) /\ \A k \in (i + 1)..(j - 1) : IsCaseIgnorable(s[k])
+UpperCaseU(s) == FlatMap(UpperOf, s)
+LowerCaseU(s) == Gather(Len(s), LAMBDA i : IF s[i] = 931 /\ FinalSigma(s, i) THEN <<962>> ELSE LowerOf(s[i]))
+
 ---------------------------------------------------------------------------
 (* numeric arguments: xs:double values k in {fin, ninf, pinf, nan}; finite ones in quarters *)
 Fin(q) == [k |-> "fin", q |-> q]
@@ -169,6 +207,35 @@ AddR(x, y) == IF x.k = "nan" \/ y.k = "nan" THEN Special("nan")
 (* x <= p and p < x for an integer position p; comparisons with NaN are false *)
 LeP(x, p) == x.k = "ninf" \/ (x.k = "fin" /\ x.q <= p)
 PLt(p, x) == x.k = "pinf" \/ (x.k = "fin" /\ p < x.q)
+
+(* Boundary doubles of the substring family, EXACT: TLC integers are 32 bit, so a rounded value is
+   kept as two limbs  h * 2^26 + l  (0 <= l < 2^26); fn:round(x) = floor(x + 1/2) in exact arithmetic:
+     "below" n : a double strictly between n and n + 1/2 (0.49999999999999994 = 1/2 - 2^-54,
+                 1.4999999999999998, 2.4999999999999996 = 5/2 - 2^-51, 5e-324): rounds to n;
+     "big" h l : an integral double (2^52 + 1, 2^52 + 3, 2^53 - 1, 2^53, negatives): rounds to itself;
+     "gig"     : 1e300, integral and larger than every sum below: rounds to itself. *)
+B26 == 67108864
+Limb(h, l) == [k |-> "limb", h |-> h + (l \div B26), l |-> l % B26]
+EdgeVal(tok) ==
+  CASE tok = "0.49999999999999994" -> [k |-> "below", n |-> 0] [] tok = "5e-324" -> [k |-> "below", n |-> 0]
+    [] tok = "1.4999999999999998" -> [k |-> "below", n |-> 1] [] tok = "2.4999999999999996" -> [k |-> "below", n |-> 2]
+    [] tok = "4503599627370497" -> Limb(B26, 1) [] tok = "-4503599627370497" -> Limb(-B26, -1)
+    [] tok = "4503599627370499" -> Limb(B26, 3)
+    [] tok = "9007199254740991" -> Limb(2 * B26, -1) [] tok = "-9007199254740991" -> Limb(-2 * B26, 1)
+    [] tok = "9007199254740992" -> Limb(2 * B26, 0)
+    [] tok = "1e300" -> [k |-> "gig"]
+    [] OTHER -> LET x == NumVal(tok) IN Limb(0, (x.q + 2) \div 4)        \* a finite grid value, rounded
+EdgeTokens == {"0.49999999999999994", "5e-324", "1.4999999999999998", "2.4999999999999996", "4503599627370497",
+               "-4503599627370497", "4503599627370499", "9007199254740991", "-9007199254740991", "9007199254740992", "1e300"}
+EdgeGrid == EdgeTokens \cup {"-1", "1", "2", "3"}
+RoundE(x) == IF x.k = "below" THEN Limb(0, x.n) ELSE x
+AddE(x, y) == IF x.k = "gig" \/ y.k = "gig" THEN [k |-> "gig"] ELSE Limb(x.h + y.h, x.l + y.l)
+LePE(x, p) == x.k = "limb" /\ (x.h < 0 \/ (x.h = 0 /\ x.l <= p))          \* x <= p for a position p >= 1
+PLtE(p, x) == x.k = "gig" \/ x.h > 0 \/ (x.h = 0 /\ p < x.l)             \* p < x
+SubstrE2(s, a) == Gather(Len(s), LAMBDA p : IF LePE(RoundE(EdgeVal(a)), p) THEN <<s[p]>> ELSE <<>>)
+SubstrE3(s, a, b) == Gather(Len(s), LAMBDA p :
+                       IF LePE(RoundE(EdgeVal(a)), p) /\ PLtE(p, AddE(RoundE(EdgeVal(a)), RoundE(EdgeVal(b))))
+                       THEN <<s[p]>> ELSE <<>>)
 
 (* fn:substring (F&O 5.4.3): "the characters in $sourceString whose position $p satisfies
    fn:round($start) <= $p < fn:round($start) + fn:round($length)"; two arguments:
@@ -228,8 +295,9 @@ Apply1(f, v) ==
   LET s == AsStr(v) IN
   CASE f = "normalize-space" -> Str(NormalizeSpace(s))
     [] f = "string-length" -> IntV(Len(s))
-    [] f = "upper-case" -> Str(UpperCase(s))
-    [] f = "lower-case" -> Str(LowerCase(s))
+    [] f = "upper-case" -> Str(UpperCaseU(s))
+    [] f = "lower-case" -> Str(LowerCaseU(s))
+    [] f = "string" -> Str(s)
     [] f = "string-to-codepoints" -> StrToCpV(v)
     [] f = "encode-for-uri" -> Str(EncodeForUri(s))
     [] f = "iri-to-uri" -> Str(IriToUri(s))
@@ -331,15 +399,38 @@ CollFn1(f, d) == CollExpandable(cur) /\ cur' = Apply1(f, cur)
 CollTranslate(m, r, d) == CollExpandable(cur) /\ cur' = Str(TranslateS(cur.s, m, r))
 CollSubstring(a, d) == CollExpandable(cur) /\ cur' = Str(Substr2(cur.s, NumVal(a)))
 
+(* case-mapping family, boundary doubles of substring, context-item forms *)
+CaseExpandable(v) == "case" \in Acts /\ 0 \in Part /\ v.t = "str" /\ Len(v.s) <= MaxLen
+                       /\ \A i \in 1..Len(v.s) : v.s[i] \in CaseAlpha
+EdgeExpandable(v) == "edge" \in Acts /\ 0 \in Part /\ v.t = "str" /\ Len(v.s) <= MaxLen
+                       /\ \A i \in 1..Len(v.s) : v.s[i] \in {97, 98}
+SubstringE2(a) == EdgeExpandable(cur) /\ cur' = Str(SubstrE2(cur.s, a))
+SubstringE3(a, b) == EdgeExpandable(cur) /\ (a \in EdgeTokens \/ b \in EdgeTokens) /\ cur' = Str(SubstrE3(cur.s, a, b))
+(* zero-argument forms f() = f(fn:string(.)) for ANY context item (F&O 5.4.4, 5.4.5, 2.3): a string,
+   a number, a boolean, a node *)
+CtxF == {"string-length", "normalize-space", "string"}
+CtxFn(f) == "ctx" \in Acts /\ Expandable(cur) /\ cur.t = "str" /\ cur' = Apply1(f, cur)
+CtxNum(f, a) == "ctx" \in Acts /\ cur = Empty /\ cur' = Apply1(f, Str(Lex(NumVal(a))))
+CtxBool(f, b) == "ctx" \in Acts /\ cur = Empty /\ cur' = Apply1(f, Str(LexBool(b)))
+CtxPaths == ArgPaths \cup {"b/text()"}
+NodeExists(k, p) == IF p \in {"b", "b/text()"} THEN HasKid(k, "b") ELSE IF p \in DocNames THEN HasKid(k, p) ELSE TRUE
+NodeVal(k, p) == IF p = "b/text()" THEN ArgVal(k, "b") ELSE ArgVal(k, p)
+(* the context item is the first node selected by p (element, attribute, text node) *)
+DocCtx(f, p) == IsDoc /\ "ctx" \in Acts
+                /\ cur' = IF NodeExists(cur.kids, p) THEN Apply1(f, Str(NodeVal(cur.kids, p))) ELSE Empty
+
 Init == \/ cur \in {Str(s) : s \in {x \in StrUpTo(Alpha, MaxLen) : InPart(x)}}
         \/ "uri" \in Acts /\ 0 \in Part /\ cur \in {Str(s) : s \in StrUpTo(UriAlpha, UriLen)}
         \/ "doc" \in Acts /\ 0 \in Part /\ cur \in {Doc(k) : k \in StrUpTo(DocNames, DocLen)}
         \/ "coll" \in Acts /\ 0 \in Part /\ cur \in {Str(s) : s \in StrUpTo(AlphaC, MaxLen)}
+        \/ "case" \in Acts /\ 0 \in Part /\ cur \in {Str(s) : s \in StrUpTo(CaseAlpha, MaxLen)}
+        \/ "edge" \in Acts /\ 0 \in Part /\ cur \in {Str(s) : s \in StrUpTo({97, 98}, MaxLen)}
         \/ Sweep /\ cur \in {Str(<<c>>) : c \in {x \in SweepChars : x \in Part}}
         \/ 0 \in Part /\ cur = Empty
         \/ 0 \in Part /\ "cps" \in Acts /\ cur \in {Cps(c) : c \in BadCps \cup GoodCps}
 
-Fn1(f) == "fn1" \in Acts /\ IsStrArg(cur) /\ (Expandable(cur) \/ (f \in UriF /\ UriExpandable(cur)))
+Fn1(f) == "fn1" \in Acts /\ IsStrArg(cur) /\ f # "string"
+            /\ (Expandable(cur) \/ (f \in UriF /\ UriExpandable(cur)) \/ (f \in {"upper-case", "lower-case"} /\ CaseExpandable(cur)))
             /\ cur' = Apply1(f, cur)
 Fn2(f, t) == "fn2" \in Acts /\ Expandable(cur) /\ IsStrArg(cur) /\ cur' = Apply2(f, cur, t)
 Translate(m, r) == "translate" \in Acts /\ Expandable(cur) /\ IsStrArg(cur) /\ cur' = Str(TranslateS(AsStr(cur), m, r))
@@ -367,6 +458,12 @@ Next == \/ \E f \in F1 : Fn1(f)
         \/ \E f \in F1 : CollFn1(f, "ascii-ci")
         \/ \E mr \in {<<<<97>>, <<65>>>>, <<<<65, 97>>, <<98>>>>} : CollTranslate(mr[1], mr[2], "ascii-ci")
         \/ CollSubstring("2", "ascii-ci")
+        \/ \E a \in EdgeTokens : SubstringE2(a)
+        \/ \E a \in EdgeGrid, b \in EdgeGrid : SubstringE3(a, b)
+        \/ \E f \in CtxF : CtxFn(f)
+        \/ \E f \in CtxF, a \in Grid : CtxNum(f, a)
+        \/ \E f \in CtxF, b \in BOOLEAN : CtxBool(f, b)
+        \/ \E f \in CtxF, p \in CtxPaths : DocCtx(f, p)
         \/ \E f \in DocF1, p \in ArgPaths : DocFn1(f, p)
         \/ \E f \in DocF2, p \in ArgPaths, q \in ArgPaths : DocFn2(f, p, q)
         \/ \E p \in ArgPaths, q \in ArgPaths, r \in ArgPaths : DocTranslate(p, q, r)
@@ -429,9 +526,11 @@ LawCompare ==
                 /\ (StartsWith(t, S) /\ S # t => Cmp(S, t) = -1)
                 /\ Cmp(S \o t, S) >= 0
 LawCase ==
-  /\ Len(UpperCase(S)) = Len(S) /\ UpperCase(UpperCase(S)) = UpperCase(S)
-  /\ LowerCase(LowerCase(S)) = LowerCase(S)
-  /\ UpperCase(LowerCase(S)) = UpperCase(S) /\ LowerCase(UpperCase(S)) = LowerCase(S)
+  /\ UpperCaseU(UpperCaseU(S)) = UpperCaseU(S) /\ LowerCaseU(LowerCaseU(S)) = LowerCaseU(S)
+  /\ ((\A i \in 1..Len(S) : S[i] < 128) => UpperCaseU(S) = UpperCase(S) /\ LowerCaseU(S) = LowerCase(S))
+  /\ Len(UpperCaseU(S)) >= Len(S) /\ Len(LowerCaseU(S)) >= Len(S)
+  /\ \A i \in 1..Len(S) : S[i] = 931 =>          \* capital sigma: final form exactly under Final_Sigma
+        Contains(LowerCaseU(S), <<962>>) \/ ~FinalSigma(S, i)
 IsHex(c) == c \in 48..57 \/ c \in 65..70
 LawUri ==
   /\ \A i \in 1..Len(S) : /\ Utf8Decode(Utf8(S[i])) = S[i]
@@ -476,6 +575,18 @@ LawDoc == cur.t = "doc" =>
          ELSE ArgVal(k, n) = <<>>
     /\ \A p \in ArgPaths, q \in ArgPaths :
          Apply2("concat", Str(ArgVal(k, p)), ArgVal(k, q)).s = ArgVal(k, p) \o ArgVal(k, q)
+LawsCase == cur.t = "str" /\ CaseExpandable(cur) => LawCase
+(* boundary doubles: the limb arithmetic agrees with the quarter arithmetic on the ordinary grid, and
+   the rounding of the points next to a tie / beyond 2^52 is the exact floor(x + 1/2) *)
+LawEdge == cur.t = "str" /\ EdgeExpandable(cur) =>
+  /\ \A a \in {"-1", "1", "2", "3"}, b \in {"-1", "1", "2", "3"} :
+       SubstrE3(S, a, b) = Substr3(S, NumVal(a), NumVal(b)) /\ SubstrE2(S, a) = Substr2(S, NumVal(a))
+  /\ SubstrE2(S, "0.49999999999999994") = S /\ SubstrE2(S, "5e-324") = S /\ SubstrE2(S, "1.4999999999999998") = S
+  /\ SubstrE2(S, "2.4999999999999996") = Substr2(S, NumVal("2"))
+  /\ SubstrE3(S, "0.49999999999999994", "1") = <<>>
+  /\ SubstrE3(S, "-4503599627370497", "4503599627370499") = SubSeq(S, 1, Min(1, Len(S)))
+  /\ SubstrE3(S, "-9007199254740991", "9007199254740992") = <<>>
+  /\ SubstrE3(S, "-4503599627370497", "1e300") = S /\ SubstrE2(S, "4503599627370497") = <<>>
 (* the collation dimension: the codepoint collation is the plain definition; ascii-ci identifies
    exactly the ASCII case variants; functions outside UsesCollation never depend on d or a *)
 LawColl == cur.t = "str" /\ CollExpandable(cur) =>
